@@ -149,7 +149,8 @@ def roundtrip(L, notes, include, extra_off_pairs=((None,), (("drop", "drop"),)),
                     return f"ungroup_notes(group_notes({show(notes)}, {opts()}), orphaned_notes={pol or 'omitted'})"
 
                 try:
-                    raw = list(L.ungroup_notes(g, orphaned_notes=L.POL[pol])) if pol else list(L.ungroup_notes(iter(g)))
+                    gg = [tuple(x) for x in g] if pol == "keep" else g  # groups as tuples: any Sequence of notes is a group
+                    raw = list(L.ungroup_notes(gg, orphaned_notes=L.POL[pol])) if pol else list(L.ungroup_notes(iter(g)))
                 except L.Orphaned as e:
                     raise Violation(f"{what()} raised OrphanedNoteException({e}) although group_notes never puts a note inside a joined hold")
                 except Exception as e:  # not documented: let it escape, but name the input
@@ -218,7 +219,9 @@ def check_split(L, case):
             return L.Note(beat=L.Beat(it[1]), column=it[2], note_type=L.T[it[3]], player=it[4], keysound_index=it[5])
         return L.NoteWithTail(beat=L.Beat(it[1]), column=it[2], note_type=L.T[it[3]], tail_beat=L.Beat(it[6]), player=it[4], keysound_index=it[5])
 
-    rgroups = [[real(it) for it in g] for g in groups]
+    # a group is a Sequence of notes: lists in one case, tuples in the next
+    seq = tuple if (len(items) + len(groups)) % 2 else list
+    rgroups = [seq(real(it) for it in g) for g in groups]
     splitting = MG.splitting_notes(groups)
     # a note-with-tail whose head lies inside another one on its column: raising and passing it through (head and tail)
     # are unambiguous; what "dropping" it means for its own tail is not stated, so under that policy its tail may be
@@ -420,10 +423,28 @@ def corpus_cases():
     return [{"kind": "corpus", "path": rel, "chart": i, "include": inc} for inc in CORPUS_INCLUDES for rel, i in N.corpus_charts()]
 
 
+def long_hold_cases():
+    """a hold or roll kept open while a thousand and more other notes go by (a freeze held through a whole stream), with a
+    second, short hold inside it; everything that has to be buffered until the long one closes comes out afterwards"""
+    out = []
+    for n, head in ((1100, "2"), (1500, "4"), (3200, "2")):
+        notes = [[[0, 1], 0, head, None]]
+        for i in range(1, n + 1):
+            t = "1" if i % 7 else "M"
+            notes.append([[i, 4], 1 + i % 3, t, (i % 10 if i % 11 == 0 else None)])
+        notes[5] = [[5, 4], 1 + 5 % 3, "2", None]
+        notes[9] = [[9, 4], 1 + 5 % 3, "3", None]
+        notes.append([[n + 1, 4], 0, "3", None])
+        notes.append([[n + 2, 4], 2, "1", None])
+        out.append({"kind": "stream", "cols": 4, "notes": notes, "include": None})
+    return out
+
+
 def parts(tier):
     q = tier == "quick"
     out = [
         {"name": "corpus", "kind": "fixed", "cases": corpus_cases},
+        {"name": "long-holds", "kind": "fixed", "cases": long_hold_cases},
         {"name": "grid-2x3", "kind": "enum", "iter": _grid_iter(3, "0123M" if q else "0123M4", 125 if q else 216), "exhaustive": True},
     ]
     if not q:
